@@ -890,4 +890,77 @@ theorem C15_from_finite_language_instance :
           [[1, 0, 1], [0, 1], [1, 1], [0, 0, 1]] false) = some 5 := by
   refine ⟨by decide, by decide, by decide⟩
 
+/-! ## Error outcomes
+
+Inputs outside the hypotheses of the language theorems above: the constructors do **not** return
+a (wrong) DFA, they raise.  Together with `C15_nth_errors`, `C15_count_mod_nonpositive` and
+`C15_of_length_negative_min` every excluded input class has its outcome stated. -/
+
+/-- `from_prefix` with a pattern symbol outside the alphabet: the symbol becomes a key of the
+transition table and `cls(...)` refuses it with a library exception (`InvalidSymbolError`, or
+`MissingSymbolError` when the foreign key makes an incomplete row look complete). -/
+theorem C15_from_prefix_foreign (syms p : List α) (contains asPartial : Bool)
+    (h : ∃ c ∈ p, c ∉ syms) : ∃ e, fromPrefix syms p contains asPartial = .error (.lib e) := by
+  obtain ⟨c, hc, hcs⟩ := h
+  rw [fromPrefix_eq]
+  exact build_error_of_not_wf (prefixDFA_not_wf syms p contains asPartial c hc hcs)
+
+/-- `from_subsequence` with a pattern symbol outside the alphabet
+(`transitions[prev_state][char] = next_state` adds the key): a library exception. -/
+theorem C15_from_subsequence_foreign (syms p : List α) (contains : Bool)
+    (h : ∃ c ∈ p, c ∉ syms) : ∃ e, fromSubsequence syms p contains = .error (.lib e) := by
+  obtain ⟨c, hc, hcs⟩ := h
+  rw [fromSubsequence_eq]
+  exact build_error_of_not_wf (subseqDFA_not_wf syms p contains c hc hcs)
+
+/-- `from_finite_language` with a word carrying a symbol outside the alphabet: the incremental
+construction still runs to its end without `KeyError` (the invariant does not depend on the
+alphabet), and the table is refused by `cls(...)` / `_to_complete` with a library exception —
+in both forms. -/
+theorem C15_from_finite_language_foreign (lt : α → α → Bool) (ho : FL.StrictTotal lt)
+    (syms : List α) (lang : List (List α)) (hnd : lang.Nodup) (asPartial : Bool)
+    (h : ∃ w ∈ lang, ∃ c ∈ w, c ∉ syms) :
+    ∃ e, fromFiniteLanguage lt syms lang asPartial = .error (.lib e) := by
+  obtain ⟨w, hw, c, hc, hcs⟩ := h
+  have hne : lang ≠ [] := by rintro rfl; cases hw
+  obtain ⟨added, last, s, φ, hmem, hadd, inv, he⟩ :=
+    FL.fromFiniteLanguage_eq ho syms lang asPartial hne hnd
+  have hw' : w ∈ added := (hmem w).mpr hw
+  rw [he]
+  cases asPartial with
+  | true => exact build_error_of_not_wf (FL.flPartial_not_wf syms inv hadd w hw' c hc hcs)
+  | false => exact build_error_of_not_wf (FL.flComplete_not_wf syms inv hadd w hw' c hc hcs)
+
+/-- `count_mod` with a remainder outside `range(k)` (`k > 0`): `final_states = remainders`
+contains a non-state, `InvalidStateError`. -/
+theorem C15_count_mod_bad_remainder (syms : List α) (k : Int) (hk : 0 < k)
+    (remainders : Option (List Int)) (count : Option (List α))
+    (h : ∃ r ∈ remainders.getD [0], r < 0 ∨ k ≤ r) :
+    countMod syms k remainders count = .error (.lib .invalidStateError) := by
+  obtain ⟨r, hr, hbad⟩ := h
+  rw [countMod_eq syms k hk]
+  exact countModDFA_bad_remainder syms k.toNat _ (by omega) _ r hr (by omega)
+
+/-- Concrete error outcomes, evaluated on the model (symbols `a, b, c` = `0, 1, 2`):
+`from_prefix({a,b}, "ac")` and `from_subsequence({a,b}, "ca")` raise `InvalidSymbolError`,
+`from_prefix({a}, "ab")` raises `MissingSymbolError` (the foreign key makes the row look
+complete), `from_finite_language({a,b}, {"ac"})` raises `InvalidSymbolError` in both forms,
+`count_mod({a,b}, 3, {3})` raises `InvalidStateError`. -/
+theorem C15_error_instances :
+    raised (fromPrefix [0, 1] [0, 2] true true) = some (.lib .invalidSymbolError) ∧
+    raised (fromPrefix [0] [0, 1] true true) = some (.lib .missingSymbolError) ∧
+    raised (fromPrefix [0, 1] [0, 2] false true) = some (.lib .invalidSymbolError) ∧
+    raised (fromSubsequence [0, 1] [2, 0] true) = some (.lib .invalidSymbolError) ∧
+    raised (fromFiniteLanguage (fun a b => decide (a < b)) [0, 1] [[0, 2]] true) =
+      some (.lib .invalidSymbolError) ∧
+    raised (fromFiniteLanguage (fun a b => decide (a < b)) [0, 1] [[0, 2]] false) =
+      some (.lib .invalidSymbolError) ∧
+    raised (countMod [0, 1] 3 (some [3]) none) = some (.lib .invalidStateError) := by decide
+
+example : ∃ e, fromPrefix ['a', 'b'] ['a', 'c'] true false = .error (.lib e) :=
+  C15_from_prefix_foreign _ _ _ _ ⟨'c', by decide, by decide⟩
+
+example : countMod ['a', 'b'] 3 (some [0, 5]) none = .error (.lib .invalidStateError) :=
+  C15_count_mod_bad_remainder _ 3 (by decide) _ _ ⟨5, by decide, by decide⟩
+
 end AV.Props.C15
